@@ -20,6 +20,8 @@ from . import c09
 PID = "C14"
 _VERSIONS = (6, 8)
 ADDR = [b"\x01" * 32, b"\x22" * 32, b"\x33" * 32]
+APP_ADDR = b"\x0a" * 32        # global CurrentApplicationAddress of the reference AVM's default context
+OUTER_SENDER = b"\x01" * 32    # txn Sender of the default outer transaction
 TXT = {"pay": pt.TxnType.Payment, "axfer": pt.TxnType.AssetTransfer, "appl": pt.TxnType.ApplicationCall}
 TNUM = {"pay": 1, "axfer": 4, "appl": 6}
 
@@ -32,7 +34,9 @@ def given_values(params, variant):
             kind = k if k != "txn" else ("pay" if (i + variant) % 2 == 0 else "axfer")
             out.append(("txn", kind, 1000 + i if kind != "appl" else None))
         elif k == "account":
-            out.append(("account", ADDR[(i + variant) % 3]))
+            # a literal address, the application's own address, or the outer transaction's sender
+            out.append([("account", ADDR[0], "lit"), ("account", ADDR[1], "lit"), ("account", APP_ADDR, "app_addr"),
+                        ("account", OUTER_SENDER, "txn_sender"), ("account", ADDR[2], "lit")][(i + 2 * variant) % 5])
         elif k == "asset":
             out.append(("asset", 1000 + ((i + variant) % 2)))
         elif k == "application":
@@ -57,7 +61,8 @@ def build_program(sig, params, given, mode, extra):
                 args.append({pt.TxnField.type_enum: TXT[kind], pt.TxnField.application_id: pt.Int(55),
                              pt.TxnField.application_args: [pt.Bytes("inner")]})
         elif g[0] == "account":
-            args.append(pt.Bytes(g[1]))
+            args.append({"lit": lambda: pt.Bytes(g[1]), "app_addr": pt.Global.current_application_address,
+                         "txn_sender": pt.Txn.sender}[g[2]]())
         elif g[0] in ("asset", "application"):
             args.append(pt.Int(g[1]))
         else:
@@ -73,18 +78,24 @@ def build_program(sig, params, given, mode, extra):
     elif extra == "accounts":
         # array fields given as extra fields are appended BEHIND the entries the call itself adds
         xf = {pt.TxnField.accounts: [pt.Bytes(ADDR[2])]}
+    elif extra == "sender":
+        # the inner call is sent by another account the application controls (rekeyed to it)
+        xf = {pt.TxnField.sender: pt.Bytes(ADDR[1])}
     elif extra == "refs":
         xf = {pt.TxnField.assets: [pt.Int(42)], pt.TxnField.applications: [pt.Int(43)], pt.TxnField.accounts: [pt.Bytes(ADDR[0])]}
     call = pt.InnerTxnBuilder.ExecuteMethodCall(app_id=pt.Int(9), method_signature=sig, args=args, extra_fields=xf)
     return pt.Seq(*steps, call, pt.Int(1))
 
 
-def decode_call(sig, params, inner_group, sender=b"\x01" * 32, current_app=7):
+def decode_call(sig, params, inner_group, sender=None, current_app=7):
     """independent callee-side decoder -> list of decoded argument values, or raises ValueError"""
     ntx = sum(1 for k in params if c09.is_txn(k))
     if len(inner_group) != ntx + 1:
         raise ValueError("inner group has %d transactions, expected %d" % (len(inner_group), ntx + 1))
     call = inner_group[-1]
+    if sender is None:
+        # account index 0 is the sender of the CALL: the application itself unless the call names another sender
+        sender = call.get("Sender", APP_ADDR)
     if call.get("TypeEnum") != 6:
         raise ValueError("last inner transaction is not an application call")
     app_args = call.get("ApplicationArgs", [])
@@ -163,10 +174,10 @@ def check_case(case, out, versions):
     for ver in versions:
         for variant in (0, 1):
             given = given_values(params, variant)
-            all_extras = ["none", "fee", "note", "accounts", "refs"]
+            all_extras = ["none", "fee", "note", "accounts", "refs", "sender"]
             has_ref = any(c09.is_ref(k) for k in params)
             for mode, extra in [(m, x) for m in ("abi", "expr")
-                                for x in (all_extras if has_ref and m == "abi" else [all_extras[(variant + len(params)) % 5]])]:
+                                for x in (all_extras if has_ref and m == "abi" else [all_extras[(variant + len(params)) % 6]])]:
                 try:
                     text = pt.compileTeal(build_program(sig, params, given, mode, extra), pt.Mode.Application, version=ver)
                 except drive.PT_ERRORS as e:
@@ -194,7 +205,7 @@ def check_case(case, out, versions):
                     else:
                         try:
                             got = decode_call(sig, params, groups[0])
-                            want = [(g[0], g[1], g[2]) if g[0] == "txn" else g for g in given]
+                            want = [(g[0], g[1], g[2]) if g[0] == "txn" else (g[0], g[1]) for g in given]
                             if got != want:
                                 for j, (a, b) in enumerate(zip(got, want)):
                                     if a != b:
@@ -206,6 +217,8 @@ def check_case(case, out, versions):
                             call = groups[0][-1]
                             if (extra == "fee" and call.get("Fee") != 0) or (extra == "note" and (call.get("Note") != b"n" or call.get("Fee") != 2000)):
                                 why = "extra fields not set on the application call: %r" % ({k: call.get(k) for k in ("Fee", "Note")},)
+                            elif extra == "sender" and call.get("Sender") != ADDR[1]:
+                                why = "extra field sender not set on the application call: %r" % (call.get("Sender"),)
                             elif extra == "accounts" and (call.get("Accounts") or [None])[-1] != ADDR[2]:
                                 why = "extra account is not the last foreign account: %r" % (call.get("Accounts"),)
                             elif extra == "refs" and ((call.get("Assets") or [None])[-1] != 42 or (call.get("Applications") or [None])[-1] != 43
